@@ -136,6 +136,8 @@ class History:
         return self
 
     def apply(self, op):
+        if op['op'] == 'reopen':
+            return self.reopen(reuse=bool(op.get('reuse')))
         before = None
         if op['op'].startswith('rm_'):
             m = self.sess.model
@@ -400,6 +402,39 @@ def special_layout(g, which):
         if r.random() < 0.4:
             ops.append({'op': 'add_directory', 'joliet_path': '/zdir-after'})
         return cfg, ops
+    if which == 'many-dirs':
+        # path tables crossing the 4096-byte step in which their extents are reserved (ISO9660: 10 + 16 per
+        # 8-character directory -> 4090 bytes with 255, 4106 with 256; Joliet 10 + 24 each -> 170 / 171),
+        # and coming back below it by removals; sometimes with copies of the PVD, which have to follow
+        rr = r.choice([None, '1.09'])
+        cfg = Cfg(level=r.choice([1, 3]), joliet=r.choice([None, 3]), rr=rr)
+        ops = []
+        ndup = r.choice([0, 0, 1, 2])
+        for _k in range(ndup if r.random() < 0.5 else 0):
+            ops.append({'op': 'duplicate_pvd'})
+        early = len(ops) > 0
+        n = r.choice([254, 255, 256, 258] if not cfg.joliet or r.random() < 0.5 else [169, 170, 171, 173])
+        flat = r.random() < 0.7
+        made = []
+        for k in range(n):
+            par = '' if flat or k < 8 else made[k % 8]
+            o = {'op': 'add_directory', 'iso_path': '%s/D%07d' % (par, k)}
+            if rr:
+                o['rr_name'] = 'd%07d' % k
+            if cfg.joliet and (not par or (par.lower() in [m.lower() for m in made[:8]])):
+                o['joliet_path'] = ('%s/d%07d' % (par, k)).lower()
+            ops.append(o)
+            made.append(o['iso_path'])
+        if not early:
+            for _k in range(ndup):
+                ops.append({'op': 'duplicate_pvd'})
+        if r.random() < 0.3:
+            ops.append({'op': 'reopen', 'reuse': False})
+        leafs = [m for m in made if flat or m not in made[:8]]
+        r.shuffle(leafs)
+        for m in leafs[:r.choice([0, 1, 3, 6, 20])]:
+            ops.append({'op': 'rm_directory', 'iso_path': m})
+        return cfg, ops
     if which == 'deep-reloc':
         # Rock Ridge relocation: directories to depth 8..12, same-named twins, custom relocation name
         from harness.props import c08
@@ -416,4 +451,4 @@ def special_layout(g, which):
 
 
 SPECIALS = ['exact-fill', 'udf-big-dir', 'udf-exact-fill', 'exact-fill-root', 'exact-fill-multi', 'exact-fill-spill',
-            'shrink-subdir', 'grow-subdir', 'deep-reloc', 'joliet-exact-fill']
+            'shrink-subdir', 'grow-subdir', 'deep-reloc', 'joliet-exact-fill', 'many-dirs']
